@@ -228,6 +228,34 @@ def real_wsgi(args, part):
     return (ok, f"handle_wsgi_request -> {got['status']} log={log} expected {cls}")
 
 
+# ------------------------------------------------------------------ etag arguments of the store API
+from xv.env import mstore  # noqa: E402
+from xv.harness import _store  # noqa: E402
+
+
+def body_store_etag_args(c0, c1, target, body):
+    """import_one(replace_etag=...) / delete_one(etag=...) on the three back ends: carried out iff the etag
+    names the current content; a failed condition raises InvalidETag / NoSuchItem and changes nothing."""
+    kind, op, cond = ctx.PART
+    f = _store.step(kind, [c0, c1, b""], 2, op, target, body, cond)
+    if f is None:
+        return (True, "pre-invalid")
+    if kind == "vdir" and f["name"].endswith(".txt"):
+        return (True, "vdir-other-ext")
+    ok = f["outcome"] == f["want"] and mstore.agrees(kind, f["obs_restart"], f["S2"])
+    if f["want"] != "ok":
+        ok = ok and f["S2"] == f["S"] and mstore.agrees(kind, f["obs1"], f["S"])
+    return (ok, _store.opname(op) + ":" + f["want"])
+
+
+def h_store_etag_args(c0: bytes, c1: bytes, target: int, body: bytes) -> bool:
+    """
+    pre: len(c0) <= 2 and len(c1) <= 2 and len(body) <= 2 and 0 <= target < 5
+    post: _
+    """
+    return run(body_store_etag_args, c0, c1, target, body)
+
+
 _CLS = ["PUT:412", "PUT:execute", "DELETE:412", "DELETE:execute", "DELETE:404", "GET:304", "GET:serve",
         "HEAD:304", "GET:404"]
 _B = {"quick": {"hlen": 3, "elen": 1, "nitems": 2}, "thorough": {"hlen": 5, "elen": 2, "nitems": 3}}
@@ -250,4 +278,14 @@ HARNESSES = [
             budget={"quick": 60, "thorough": 420}, real_replay=real_wsgi,
             describe="same decision table through WSGIRequest (the HTTP_* header table of the WSGI front end)",
             encodes=["xandikos.webdav.WSGIRequest.__init__", "xandikos.webdav.WebDAVApp._handle_request"]),
+    Harness("store_etag_args", h_store_etag_args, body_store_etag_args,
+            classes=[("put:etag", ("bare", 0, 3)), ("put:ok", ("tree", 0, 1)), ("delete:etag", ("vdir", 1, 3)),
+                     ("delete:ok", ("bare", 1, 1))],
+            parts={"quick": [(k, op, c) for k in mstore.KINDS for (op, c) in ((0, 1), (0, 2), (0, 3), (1, 1), (1, 3))]},
+            budget={"quick": 45, "thorough": 300},
+            describe="store API: import_one(replace_etag) / delete_one(etag) with the current, a stale (other content) and "
+                     "a foreign etag, on bare / tree / vdir; part = (back end, operation, etag kind)",
+            encodes=["xandikos.store.git.GitStore._check_duplicate", "xandikos.store.git.BareGitStore.delete_one",
+                     "xandikos.store.git.TreeGitStore.delete_one", "xandikos.store.vdir.VdirStore._check_duplicate",
+                     "xandikos.store.vdir.VdirStore.delete_one"]),
 ]
